@@ -4243,3 +4243,168 @@ def r05_15(ctx):
                     "the window (an out-of-order segment, a window update behind a lost segment) is ignored and later data exceeds the window the peer last announced", body=b, bb=w['bb'])
         else:
             ctx.ok(('process', 'remote_win_len', w['bb']), sample=dict(stores='repr.window_len << scale'))
+
+
+@rule('R20.14', ['C20', 'C06'], floor=2, clause='6LoWPAN IPHC: the size of each in-line address is decided from the link-layer address of the same side (source with ll_src_addr, destination with ll_dst_addr) in Repr::buffer_len, exactly as Repr::emit passes them to the address setters')
+def r20_14(ctx):
+    F = ctx.F
+    R = 'wire::sixlowpan::iphc::Repr'
+    b = ctx.method(R, 'buffer_len')
+    pair = {'ll_src_addr': ('src_addr', 'dst_addr'), 'll_dst_addr': ('dst_addr', 'src_addr')}
+    seen = set()
+    for bi, bl in enumerate(b.blocks):
+        if bl['cl'] or bl['t'][0] != 'switch':
+            continue
+        for tb, lab, f in cond_facts(F, b, bi):
+            ls = set()
+            for x in f[1:]:
+                if isinstance(x, tuple):
+                    ls |= leafs(x)
+            for ll, (own, other) in pair.items():
+                if f"F:{R}.{ll}" in ls:
+                    if f"F:{R}.{other}" in ls and f"F:{R}.{own}" not in ls:
+                        ctx.bad(f"iphc::Repr::buffer_len|{ll}-with-{other}", f"iphc::Repr::buffer_len decides the in-line size of {other} from {ll} (the other side's link-layer address) while emit "
+                                f"elides it against its own: the header is sized differently from what is written and the payload that follows is misplaced", body=b, bb=bi)
+                    elif f"F:{R}.{own}" in ls:
+                        seen.add(ll)
+    for ll in sorted(seen):
+        ctx.ok(('buffer_len', ll), sample=dict(fn='iphc::Repr::buffer_len', elision_of=pair[ll][0], against=ll))
+    ctx.need(len(seen) == 2, "link-layer address comparisons for both sides in iphc::Repr::buffer_len")
+    e = ctx.method(R, 'emit')
+    n = 0
+    for x in e.calls():
+        cn = e.callee_name(x[1]) or ''
+        for side in ('src', 'dst'):
+            if cn.endswith(f"::set_{side}_address") and len(x[2]) >= 3:
+                n += 1
+                a1 = leafs(F.origin.operand(e, x[2][1], x[0], len(e.blocks[x[0]]['s'])))
+                a2 = leafs(F.origin.operand(e, x[2][2], x[0], len(e.blocks[x[0]]['s'])))
+                if f"F:{R}.{side}_addr" in a1 and f"F:{R}.ll_{side}_addr" in a2:
+                    ctx.ok(('emit', side))
+                else:
+                    ctx.bad(f"iphc::Repr::emit|set_{side}_address|args", f"iphc::Repr::emit passes {sorted(a1)[:2]} / {sorted(a2)[:2]} to set_{side}_address", body=e, bb=x[0])
+    ctx.need(n == 2, "set_src_address / set_dst_address in iphc::Repr::emit")
+
+
+@rule('R19.8', ['C19', 'C13'], floor=1, clause='DNS fail-over: when the query moves to the next server its retransmission deadline is reset as well (the new server is asked at once, not when the previous server\'s back-off would have fired)')
+def r19_8(ctx):
+    F = ctx.F
+    D, PQ = 'socket::dns::Socket', 'socket::dns::PendingQuery'
+    b = ctx.method(D, 'dispatch')
+    def stores(field):
+        return [w for w in F.field_writes() if w['fn'] == b.key and w['kind'] == 'store' and w['adt'] == PQ and w['field'] == field]
+    si = stores('server_idx')
+    ctx.need(si, "server_idx store in dns dispatch")
+    resets = []
+    for w in stores('retransmit_at'):
+        ls = leafs(store_origin(F, b, w))
+        if f"F:{PQ}.delay" not in ls and f"F:{PQ}.retransmit_at" not in ls:
+            resets.append(w['bb'])
+    timeout = lambda f: f[0] == 'rel' and f[1] in ('Le', 'Lt') and f"F:{PQ}.timeout_at" in leafs(f[2]) and \
+        any(l.endswith('::now') for l in leafs(f[3]) if l.startswith('C:'))
+    te = guard_edges(F, b, timeout)
+    ctx.need(te, "server timeout test in dns dispatch")
+    for w in si:
+        bad = False
+        for (bi, tb, lab) in te:
+            fwd = b.reachable(start=tb, cut_blocks=set(resets) - {tb})
+            if w['bb'] not in fwd or tb in resets or w['bb'] in resets:
+                continue
+            bad = True
+        # the reset may also follow the increment: then no test of retransmit_at is reached from the store without passing it
+        if bad and resets:
+            uses = set()
+            for bi, bl in enumerate(b.blocks):
+                if not bl['cl'] and bl['t'][0] == 'switch' and any(f"F:{PQ}.retransmit_at" in leafs(x) for tb, lab, f in cond_facts(F, b, bi)
+                                                                    for x in f[1:] if isinstance(x, tuple)):
+                    uses.add(bi)
+            fwd = b.reachable(start=w['bb'], cut_blocks=set(resets))
+            if any(r_ in b.reachable(start=w['bb']) for r_ in resets) and not (uses & set(fwd)):
+                bad = False
+        if bad:
+            ctx.bad("dns::dispatch|failover-stale-retransmit", "fail-over to the next DNS server keeps the previous server's retransmission deadline (up to the full back-off away): "
+                    "the new server is first asked several seconds late and gets a fraction of its time budget", body=b, bb=w['bb'])
+        else:
+            ctx.ok(('failover', 'resets-retransmit_at'), sample=dict(on_failover='retransmit_at = Instant::ZERO'))
+
+
+@rule('R13.17', ['C13', 'C02'], floor=1, clause='the user-timeout decision of tcp dispatch (timed_out) is a function of the last-activity instant, the timeout option and the clock only - the same quantities poll_at\'s timeout deadline is computed from in every state (a state-dependent exception in one of them makes poll_at report an instant at which dispatch does nothing)')
+def r13_17(ctx):
+    F = ctx.F
+    b = ctx.method(SOCK, 'timed_out')
+    ls = set()
+    for bi, bl in enumerate(b.blocks):
+        if bl['cl'] or bl['t'][0] != 'switch':
+            continue
+        for tb, lab, f in cond_facts(F, b, bi):
+            for x in f[1:]:
+                if isinstance(x, tuple):
+                    ls |= leafs(x)
+    ls |= leafs(ret_origin(F, b))
+    fields = {l.rsplit('.', 1)[-1] for l in ls if l.startswith(f"F:{SOCK}.")}
+    ctx.need({'remote_last_ts', 'timeout'} <= fields, "timed_out reads remote_last_ts and timeout")
+    extra = fields - {'remote_last_ts', 'timeout'}
+    if extra:
+        ctx.bad(f"tcp::timed_out|depends-on|{'+'.join(sorted(extra))}", f"tcp::Socket::timed_out also depends on {sorted(extra)} while poll_at computes the user-timeout deadline from "
+                "remote_last_ts + timeout in every state: where the two disagree poll_at keeps reporting a deadline in the past and dispatch does nothing (the event loop spins)", body=b)
+    else:
+        ctx.ok(('timed_out', 'inputs'), sample=dict(fn='timed_out', reads=sorted(fields)))
+
+
+@rule('R14.13', ['C14', 'C01'], floor=1, clause='contiguous_window() never exceeds window(): the free run handed to an enqueue is the smaller of the free space and the distance to the end of the storage (a full ring, where the write position equals the read position as for an empty one, yields 0)')
+def r14_13(ctx):
+    F = ctx.F
+    RB = 'storage::ring_buffer::RingBuffer'
+    b = ctx.method(RB, 'contiguous_window')
+    wk = ctx.method(RB, 'window').key
+    is_w = lambda n: strip(n)[0] == 'call' and strip(n)[1] == wk
+    r = simplify(ret_origin(F, b))
+    bad = []
+    for a in alts(r):
+        a = strip(a)
+        if is_w(a) or (is_call(a, '::min', nargs=2) and any(is_w(x) for x in call_args(a))):
+            continue
+        # if-form of the clamp: the other value is returned only behind `value <= window()`
+        def le_w(f, a=a):
+            if f[0] != 'rel':
+                return False
+            lo, hi = (f[2], f[3]) if f[1] in ('Le', 'Lt') else ((f[3], f[2]) if f[1] in ('Ge', 'Gt') else (None, None))
+            return lo is not None and is_w(simplify(hi)) and strip(simplify(lo)) == a
+        if not guard_edges(F, b, le_w):
+            bad.append(a)
+    if bad:
+        ctx.bad("RingBuffer::contiguous_window|exceeds-window", f"contiguous_window() can answer {show(bad[0])[:70]}, which is not bounded by window(): on a full ring the write position "
+                "equals the read position and the run up to the end of the storage is handed out although nothing is free - enqueue_many overwrites unread data", body=b)
+    else:
+        ctx.ok(('contiguous_window', '<= window()'), sample=dict(fn='contiguous_window', value='min(window(), capacity() - write_at)'))
+
+
+@rule('R16.13', ['C16', 'C10', 'C11'], floor=2, clause='the interface takes the directed-broadcast address of its own networks from Ipv4Cidr::broadcast(), which has none for /31 and /32 prefixes (RFC 3021): the peer on a point-to-point link is a unicast neighbour to be resolved, not a broadcast address')
+def r16_13(ctx):
+    F = ctx.F
+    C = 'wire::ipv4::Cidr'
+    bc = ctx.method(C, 'broadcast')
+    somes = [x[0] for x in agg_sites(bc, 'std::option::Option', ['Some'])]
+    ctx.need(somes, "Some(..) in Ipv4Cidr::broadcast")
+
+    def short(f):
+        # prefix_len known to be neither 31 nor 32 / below 31
+        if f[0] != 'rel' or not any(l.endswith('.prefix_len') for l in leafs(f[2]) | leafs(f[3])):
+            return False
+        c = const_of(simplify(f[3])) if any(l.endswith('.prefix_len') for l in leafs(f[2])) else None
+        return (f[1] == 'Ne' and c == 31) or (f[1] in ('Lt',) and c == 31) or (f[1] == 'Le' and c == 30)
+    b1 = [s_ for s_ in somes if unguarded(F, bc, [s_], short)]
+    if b1:
+        ctx.bad("ipv4::Cidr::broadcast|slash31", "Ipv4Cidr::broadcast() yields an address for a /31 network: the second host of a point-to-point link is taken for the broadcast address",
+                body=bc, bb=b1[0])
+    else:
+        ctx.ok(('Cidr::broadcast', 'none for /31'), sample=dict(fn='Ipv4Cidr::broadcast', guard='prefix_len != 31 (&& != 32)'))
+    ib = ctx.method('iface::interface::InterfaceInner', 'is_broadcast_v4')
+    fam = [ib] + list(F.closures_of(ib.key))
+    uses = any((x.callee_name(c[1]) or '') == bc.key for x in fam for c in x.calls())
+    inline = [x for x in fam for c in x.calls() if (x.callee_name(c[1]) or '').endswith('::netmask') or (x.callee_name(c[1]) or '').endswith('Cidr::network')]
+    if uses and not inline:
+        ctx.ok(('is_broadcast_v4', 'via Cidr::broadcast'), sample=dict(fn='is_broadcast_v4', subnet_broadcast='Ipv4Cidr::broadcast()'))
+    else:
+        ctx.bad("is_broadcast_v4|inline-broadcast", "InterfaceInner::is_broadcast_v4 computes the subnet broadcast address itself (network | !netmask) instead of through Ipv4Cidr::broadcast(): "
+                "on a /31 the peer's address is classified as broadcast - it is never resolved (frames go to ff:ff:ff:ff:ff:ff) and datagrams from it are treated as broadcasts", body=ib)
